@@ -1593,6 +1593,10 @@ class Engine:
     def coerce_local(self, v, ty):
         """give an (empty/untyped) literal container or a concrete value the declared type."""
         if isinstance(v, Box) and v.ty is None:
+            want = {TSeq: 'list', TMap: 'dict', TSet: 'set'}.get(type(ty))
+            if want is not None and v.kind is not None and v.kind != want:
+                # the (changed) code builds another kind of container than the contract declares for this local
+                raise EngineError('a %s literal where the contract declares a %s local' % (v.kind, want))
             v.set_type(ty)
             return v
         if isinstance(v, (Box, SV)):
